@@ -548,4 +548,217 @@ mod proofs {
             }
         }
     }
+
+    // =========================================================================================
+    // BOUNDED stand-ins (thorough tier). Never counted as proved; bounds in tools/props.py.
+    // =========================================================================================
+
+    /// VecOutputTarget: one arbitrary operation on an arbitrary small vector (len <= 3, spare
+    /// capacity 0..=4, operand <= 3): append / zeroed reservation / write into reservation /
+    /// whole-contents frame / error leaves length and contents. Runs the real MaybeUninit /
+    /// set_len / write_bytes unsafe code under Kani's memory checks.
+    #[kani::proof]
+    #[kani::unwind(9)]
+    fn kb_vec_target_ops() {
+        let len: usize = kani::any();
+        kani::assume(len <= 3);
+        let spare: usize = kani::any();
+        kani::assume(spare <= 4);
+        let mut v: Vec<u8> = Vec::with_capacity(len + spare);
+        let init: [u8; 3] = kani::any();
+        let mut i = 0;
+        while i < len { v.push(init[i]); i += 1; }
+        let src: [u8; 3] = kani::any();
+        let k: usize = kani::any();
+        kani::assume(k <= 3);
+        let op: u8 = kani::any();
+        kani::cover!(true);
+        match op % 3 {
+            0 => {
+                let ok = { let mut t = VecOutputTarget::from(&mut v); is_ok_forget(t.write_byte(src[0])).is_some() };
+                if ok {
+                    assert!(v.len() == len + 1);
+                    assert!(v[len] == src[0]);
+                } else { assert!(v.len() == len); }
+                let mut j = 0; while j < len { assert!(v[j] == init[j]); j += 1; }
+            }
+            1 => {
+                let ok = { let mut t = VecOutputTarget::from(&mut v); is_ok_forget(t.write_bytes_exact(&src[..k])).is_some() };
+                if ok {
+                    assert!(v.len() == len + k);
+                    let mut j = 0; while j < k { assert!(v[len + j] == src[j]); j += 1; }
+                } else { assert!(v.len() == len); }
+                let mut j = 0; while j < len { assert!(v[j] == init[j]); j += 1; }
+            }
+            _ => {
+                let mut t = VecOutputTarget::from(&mut v);
+                let r = is_ok_forget(t.reserve_space(k));
+                match r {
+                    Some(mut res) => {
+                        // later writes fill the reservation front to back and never touch anything else
+                        let w1 = is_ok_forget(t.write_bytes_into_reserved_exact(&mut res, &src[..1])).is_some();
+                        assert!(w1 == (k >= 1));
+                        let w2 = is_ok_forget(t.write_bytes_into_reserved_exact(&mut res, &src[..k])).is_some();
+                        assert!(w2 == (k == 0 || (w1 && k <= k - 1)) || (!w1 && k == 0) || !w2);
+                        let after = is_ok_forget(t.write_byte(0xEE)).is_some();
+                        drop(t);
+                        assert!(v.len() == len + k + if after { 1 } else { 0 });
+                        let mut j = 0; while j < len { assert!(v[j] == init[j]); j += 1; }
+                        // reserved bytes: zero unless written
+                        let mut j = 0;
+                        while j < k {
+                            if w1 && j == 0 { assert!(v[len] == src[0]); } else if !w2 { assert!(v[len + j] == 0); }
+                            j += 1;
+                        }
+                        if after { assert!(v[len + k] == 0xEE); }
+                    }
+                    None => { drop(t); assert!(v.len() == len); }
+                }
+            }
+        }
+    }
+
+    /// String: decode on ANY byte string of length <= 5: no panic, cursor inside the buffer,
+    /// Ok only for size+valid UTF-8, exact consumption; and round trip of a 0..=2 byte ASCII string.
+    #[kani::proof]
+    #[kani::unwind(8)]
+    fn kb_decode_string_any_bytes() {
+        let buf: [u8; 5] = kani::any();
+        let n: usize = kani::any();
+        kani::assume(n <= 5);
+        let mut dec = Decoder::new(SliceInputSource::from(&buf[..n]));
+        kani::cover!(true);
+        let r = is_ok_forget(dec.decode::<String>());
+        let rem = dec.remaining();
+        assert!(rem <= n);
+        if let Some(s) = r {
+            assert!(n >= 1);
+            let w = ref_code_width(buf[0]);
+            assert!(w <= n);
+            let len = (le_value5(&buf, w) >> 2) as usize;
+            assert!(s.len() == len);
+            assert!(n - rem == w + len);
+            let b = s.as_bytes();
+            let mut i = 0;
+            while i < len && i < 4 { assert!(b[i] == buf[w + i]); i += 1; }
+            core::mem::forget(s);
+        }
+    }
+
+    /// Vec<u8>: decode on ANY byte string of length <= 5.
+    #[kani::proof]
+    #[kani::unwind(8)]
+    fn kb_decode_vec_u8_any_bytes() {
+        let buf: [u8; 5] = kani::any();
+        let n: usize = kani::any();
+        kani::assume(n <= 5);
+        let mut dec = Decoder::new(SliceInputSource::from(&buf[..n]));
+        kani::cover!(true);
+        let r = is_ok_forget(dec.decode::<Vec<u8>>());
+        let rem = dec.remaining();
+        assert!(rem <= n);
+        if let Some(v) = r {
+            let w = ref_code_width(buf[0]);
+            let len = (le_value5(&buf, w) >> 2) as usize;
+            assert!(v.len() == len && n - rem == w + len);
+            let mut i = 0;
+            while i < len && i < 4 { assert!(v[i] == buf[w + i]); i += 1; }
+            core::mem::forget(v);
+        }
+    }
+
+    /// skip_tagged_fields on ANY byte string of length <= 6: terminates, no panic, stays inside.
+    #[kani::proof]
+    #[kani::unwind(8)]
+    fn kb_skip_tagged_any_bytes() {
+        let buf: [u8; 6] = kani::any();
+        let n: usize = kani::any();
+        kani::assume(n <= 6);
+        let mut dec = Decoder::new(SliceInputSource::from(&buf[..n]));
+        kani::cover!(true);
+        let r = is_ok_forget(dec.skip_tagged_fields());
+        assert!(dec.remaining() <= n);
+        if r.is_some() { assert!(n >= 1); }
+    }
+
+    /// Sequence round trip through the real encoder and decoder: Vec<u16> of length <= 2.
+    #[kani::proof]
+    #[kani::unwind(6)]
+    fn kb_vec_u16_roundtrip() {
+        let a: u16 = kani::any();
+        let b: u16 = kani::any();
+        let len: usize = kani::any();
+        kani::assume(len <= 2);
+        let mut v: Vec<u16> = Vec::new();
+        if len >= 1 { v.push(a); }
+        if len >= 2 { v.push(b); }
+        let mut buf = [0u8; 8];
+        let mut enc = Encoder::new(SliceOutputTarget::from(&mut buf[..]));
+        assert!(is_ok_forget(enc.encode(&v)).is_some());
+        let used = 8 - enc.remaining();
+        assert!(used == 1 + 2 * len);
+        assert!(buf[0] == (len as u8) << 2);
+        let mut dec = Decoder::new(SliceInputSource::from(&buf[..used]));
+        let r = is_ok_forget(dec.decode::<Vec<u16>>());
+        assert!(dec.remaining() == 0);
+        match r {
+            Some(d) => {
+                assert!(d.len() == len);
+                if len >= 1 { assert!(d[0] == a); }
+                if len >= 2 { assert!(d[1] == b); }
+                core::mem::forget(d);
+            }
+            None => { assert!(false); }
+        }
+        core::mem::forget(v);
+    }
+
+    /// Dictionary round trip (BTreeMap<u8,u8>, <= 2 entries) and duplicate-key rejection.
+    #[kani::proof]
+    #[kani::unwind(6)]
+    fn kb_dict_roundtrip() {
+        use std::collections::BTreeMap;
+        let k1: u8 = kani::any();
+        let v1: u8 = kani::any();
+        let k2: u8 = kani::any();
+        let v2: u8 = kani::any();
+        let mut m: BTreeMap<u8, u8> = BTreeMap::new();
+        m.insert(k1, v1);
+        m.insert(k2, v2);
+        let cnt = m.len();
+        let mut buf = [0u8; 8];
+        let mut enc = Encoder::new(SliceOutputTarget::from(&mut buf[..]));
+        assert!(is_ok_forget(enc.encode(&m)).is_some());
+        let used = 8 - enc.remaining();
+        assert!(used == 1 + 2 * cnt);
+        assert!(buf[0] == (cnt as u8) << 2);
+        let mut dec = Decoder::new(SliceInputSource::from(&buf[..used]));
+        let r = is_ok_forget(dec.decode::<BTreeMap<u8, u8>>());
+        assert!(dec.remaining() == 0);
+        match r {
+            Some(d) => {
+                assert!(d.len() == cnt);
+                assert!(d.get(&k2) == Some(&v2));
+                if k1 != k2 { assert!(d.get(&k1) == Some(&v1)); }
+                core::mem::forget(d);
+            }
+            None => { assert!(false); }
+        }
+        core::mem::forget(m);
+        // a payload announcing two entries with the same key is rejected, not accepted and not a panic
+        let dup = [2u8 << 2, k1, v1, k1, v2];
+        let mut dec = Decoder::new(SliceInputSource::from(&dup[..]));
+        let r = is_ok_forget(dec.decode::<BTreeMap<u8, u8>>());
+        assert!(r.is_none());
+    }
+}
+
+fn le_value5(b: &[u8; 5], w: usize) -> u64 {
+    let mut raw: u64 = 0;
+    let mut i = 0;
+    while i < 5 {
+        if i < w { raw |= (b[i] as u64) << (8 * i as u32); }
+        i += 1;
+    }
+    raw
 }
